@@ -90,6 +90,29 @@ impl OptTyped for IfC {
     }
 }
 
+/// This function checks whether the printed form of a term begins with a literal zero.
+fn starts_with_zero(term: &Term) -> bool {
+    match term {
+        Term::Lit(Lit { lit: 0, .. }) => true,
+        Term::Op(op) => starts_with_zero(&op.fst),
+        Term::Destructor(destructor) => starts_with_zero(&destructor.scrutinee),
+        Term::Case(case) => starts_with_zero(&case.scrutinee),
+        _ => false,
+    }
+}
+
+/// This function checks whether the printed form of a term ends with a literal zero.
+fn ends_with_zero(term: &Term) -> bool {
+    match term {
+        Term::Lit(Lit { lit: 0, .. }) => true,
+        Term::Op(op) => ends_with_zero(&op.snd),
+        Term::Let(r#let) => ends_with_zero(&r#let.in_term),
+        Term::PrintI64(print) => ends_with_zero(&print.next),
+        Term::Exit(exit) => ends_with_zero(&exit.arg),
+        _ => false,
+    }
+}
+
 impl Print for IfC {
     fn print<'a>(
         &'a self,
@@ -97,12 +120,12 @@ impl Print for IfC {
         alloc: &'a printer::Alloc<'a>,
     ) -> printer::Builder<'a> {
         // A literal zero next to a comparison operator is lexed together with the operator as a
-        // comparison with zero, so such operands must be printed in a way that parses back to the
-        // same tree.
-        let is_zero = |term: &Term| matches!(term, Term::Lit(Lit { lit: 0, .. }));
+        // comparison with zero, so operands that begin or end with such a literal must be printed
+        // in a way that parses back to the same tree.
         let condition = match self.snd {
-            // `0 <cmp> 0` is only obtained from the form with the zero on the left
-            None if is_zero(&self.fst) => alloc
+            // `t <cmp> 0` cannot be written if `t` ends with a literal zero; the form with the zero
+            // on the left can
+            None if ends_with_zero(&self.fst) => alloc
                 .text(ZERO)
                 .append(alloc.space())
                 .append(self.sort.mirrored().print(cfg, alloc))
@@ -121,12 +144,13 @@ impl Print for IfC {
                 .append(alloc.space())
                 .append(self.sort.print(cfg, alloc))
                 .append(alloc.space())
-                // an explicit zero operand can only be written as `-0`
-                .append(if is_zero(snd) {
-                    alloc.text(MINUS).append(alloc.text(ZERO))
+                // a zero literal directly after the operator can only be written as `-0`
+                .append(if starts_with_zero(snd) {
+                    alloc.text(MINUS)
                 } else {
-                    snd.print(cfg, alloc)
-                }),
+                    alloc.nil()
+                })
+                .append(snd.print(cfg, alloc)),
         };
         alloc
             .keyword(IF)
